@@ -21,6 +21,9 @@ func (t *Translator) TransformRequest(ctx context.Context, r *http.Request) (*tr
 	var anthropicReq AnthropicRequest
 	decoder := json.NewDecoder(limitedBody)
 	decoder.DisallowUnknownFields()
+	// keep numbers as literals: tool inputs and schemas are re-serialised for the backend
+	// and integers above 2^53 would otherwise change their digits via float64
+	decoder.UseNumber()
 
 	if err := decoder.Decode(&anthropicReq); err != nil {
 		return nil, fmt.Errorf("failed to parse Anthropic request: %w", err)
